@@ -200,6 +200,7 @@ func work(rq request) response {
 		}
 	}
 
+	exclBase := map[string][]string{} // (exclusion options, page) -> tokens of that page selected alone
 	// ---- selection algebra
 	for si, sp := range rq.Spellings {
 		name := fmt.Sprintf("spelling %d %s %v", si, sp.Note, sp.Calls)
@@ -240,7 +241,23 @@ func work(rq request) response {
 			var wantToks []string
 			var wantRunes strings.Builder
 			for _, p := range sp.Want {
-				wantToks = append(wantToks, rq.PageToks[p-1]...)
+				if ex := exclusionCalls(sp.Calls); len(ex) > 0 {
+					// header/footer exclusion looks at the whole document (a fragment that
+					// repeats at the same marginal position on several pages goes, even a
+					// piece of a token): the per-page result is the page selected alone
+					// under the same exclusion options
+					k := fmt.Sprint(ex, p)
+					if _, ok := exclBase[k]; !ok {
+						t, _, err := apply(tabula.Open(rq.Path).Pages(p), ex).Text()
+						if err != nil {
+							add("baseline", "Pages(%d) with %v: Text() error: %v", p, ex, err)
+						}
+						exclBase[k] = fw.FindTokens(t)
+					}
+					wantToks = append(wantToks, exclBase[k]...)
+				} else {
+					wantToks = append(wantToks, rq.PageToks[p-1]...)
+				}
 				wantRunes.WriteString(stripWS(bases[p].text))
 			}
 			got := fw.FindTokens(txt)
@@ -472,6 +489,18 @@ func work(rq request) response {
 		}
 	}
 	return rp
+}
+
+// exclusionCalls returns the header/footer exclusion calls of a spelling.
+func exclusionCalls(calls []builderCall) []builderCall {
+	var out []builderCall
+	for _, c := range calls {
+		switch c.Kind {
+		case "ExcludeHeaders", "ExcludeFooters", "ExcludeHF":
+			out = append(out, c)
+		}
+	}
+	return out
 }
 
 // hasTextMode: the spelling selects another text assembly mode, whose output
